@@ -156,6 +156,8 @@ enum Mut {
     Scalar(Vec<PathSeg>, u8),
     Delete(Vec<PathSeg>),
     Insert(Vec<PathSeg>),
+    /// next to the member at this path, a member whose name is the same name plus a backslash
+    InsertTwin(Vec<PathSeg>),
     DupFirst(Vec<PathSeg>),
     DupLast(Vec<PathSeg>),
     ArrDelete(Vec<PathSeg>, usize),
@@ -171,6 +173,7 @@ impl Mut {
             Mut::Scalar(..) => "scalar",
             Mut::Delete(_) => "member-delete",
             Mut::Insert(_) => "member-insert",
+            Mut::InsertTwin(_) => "member-insert-backslash-twin",
             Mut::DupFirst(_) => "member-duplicate-first",
             Mut::DupLast(_) => "member-duplicate-last",
             Mut::ArrDelete(..) => "array-delete",
@@ -182,7 +185,7 @@ impl Mut {
     }
     fn path(&self) -> Vec<PathSeg> {
         match self {
-            Mut::Scalar(p, _) | Mut::Delete(p) | Mut::Insert(p) | Mut::DupFirst(p) | Mut::DupLast(p) | Mut::ArrDelete(p, _) | Mut::ArrDup(p, _) | Mut::ArrSwap(p) | Mut::ArrInsert(p) => p.clone(),
+            Mut::Scalar(p, _) | Mut::Delete(p) | Mut::Insert(p) | Mut::InsertTwin(p) | Mut::DupFirst(p) | Mut::DupLast(p) | Mut::ArrDelete(p, _) | Mut::ArrDup(p, _) | Mut::ArrSwap(p) | Mut::ArrInsert(p) => p.clone(),
             Mut::TypeTag(_) => vec![PathSeg::K("_type".into())],
         }
     }
@@ -226,6 +229,7 @@ fn mutations_of(signed: &J, own_type: &str) -> Vec<Mut> {
                     let mut q = p.clone();
                     q.push(PathSeg::K(k.clone()));
                     v.push(Mut::Delete(q.clone()));
+                    v.push(Mut::InsertTwin(q.clone()));
                     v.push(Mut::DupFirst(q.clone()));
                     v.push(Mut::DupLast(q));
                 }
@@ -277,6 +281,12 @@ fn apply(signed: &J, m: &Mut) -> J {
             s.path_mut(&q).unwrap().remove(&k);
         }
         Mut::Insert(p) => s.path_mut(p).unwrap().members_mut().push(("zz-injected".into(), J::U(1))),
+        Mut::InsertTwin(p) => {
+            let (q, k) = split(p);
+            let parent = s.path_mut(&q).unwrap();
+            let v = parent.get(&k).unwrap().clone();
+            parent.members_mut().push((format!("{k}\\"), v));
+        }
         Mut::DupFirst(p) | Mut::DupLast(p) => {
             let (q, k) = split(p);
             let parent = s.path_mut(&q).unwrap();
@@ -872,7 +882,7 @@ pub fn run(cfg: &Cfg) -> i32 {
         J::Bool(!ev.inconclusive.contains_key("wall-budget-reached")),
     ));
     let mut required: Vec<String> = Vec::new();
-    for m in ["scalar", "member-delete", "member-insert", "member-duplicate-first", "member-duplicate-last", "array-delete", "array-duplicate", "array-reorder", "array-insert", "type-tag", "composed"] {
+    for m in ["scalar", "member-delete", "member-insert", "member-insert-backslash-twin", "member-duplicate-first", "member-duplicate-last", "array-delete", "array-duplicate", "array-reorder", "array-insert", "type-tag", "composed"] {
         required.push(format!("mutation={m}"));
     }
     for r in ROLES {
@@ -889,7 +899,7 @@ pub fn run(cfg: &Cfg) -> i32 {
         ev,
         Finish {
             level: "exploration",
-            rule: "for each role type (root at a rotation hop, timestamp, snapshot, targets, two delegated roles) a validly signed document carrying unknown members at every level tough carries along; EVERY single-point mutation of its signed portion is enumerated from the JSON tree (each scalar changed in two ways, each member deleted / duplicated first / duplicated last, a member inserted into every object, each array element deleted / duplicated, arrays re-ordered / extended, the type tag swapped to each other type), served in place, and the real client's outcome recorded: accepted => the Serialize view AND typed accessors of what the client exposes must equal the signed content (canonical comparison). On top of the complete single-point space, seeded compositions of two or three mutations (each drawn from the mutation space of the already mutated document) are judged the same way. Benign rewrites (compact, \\u escapes, shuffled members, extra signature entries, extra envelope member) must stay acceptable; optional/unknown members a conforming signer may write (inside delegations, role entries, empty custom) must stay acceptable; documents swapped between roles sharing one key must be refused. Fingerprint = (role, mutation kind, JSON path class, detail).",
+            rule: "for each role type (root at a rotation hop, timestamp, snapshot, targets, two delegated roles) a validly signed document carrying unknown members at every level tough carries along; EVERY single-point mutation of its signed portion is enumerated from the JSON tree (each scalar changed in two ways, each member deleted / duplicated first / duplicated last, a member inserted into every object, next to every member a twin whose name differs by a trailing backslash, each array element deleted / duplicated, arrays re-ordered / extended, the type tag swapped to each other type), served in place, and the real client's outcome recorded: accepted => the Serialize view AND typed accessors of what the client exposes must equal the signed content (canonical comparison). On top of the complete single-point space, seeded compositions of two or three mutations (each drawn from the mutation space of the already mutated document) are judged the same way. Benign rewrites (compact, \\u escapes, shuffled members, extra signature entries, extra envelope member) must stay acceptable; optional/unknown members a conforming signer may write (inside delegations, role entries, empty custom) must stay acceptable; documents swapped between roles sharing one key must be refused. Fingerprint = (role, mutation kind, JSON path class, detail).",
             assumptions: vec![
                 "'identical to what the signers signed' is judged on the canonical form (NFC respelling is an observation, not a violation)".into(),
                 "the `roles` map of root is not extended with unknown roles (the TUF specification fixes its member set)".into(),
